@@ -253,3 +253,82 @@ Section Prims.
       end
     end.
 End Prims.
+
+(* ---------------------------------------------------------------------------
+   KeyStore lock-state machine (aqua/accounts/keystore/keystore.go: NewAccount,
+   ImportECDSA, Unlock, TimedUnlock, Lock, expire, Update, Export, Delete,
+   SignHash*/SignTx, SignHashWithPassphrase, getDecryptedKey).  One KeyStore
+   instance; account i is the i-th created.  What GetKey decides is abstracted
+   to "the passphrase given is the one the stored file was last encrypted
+   with" (tied to decrypt_key by the C20 theorems above); time is a logical
+   clock advanced by OWait. *)
+Inductive lock_state := Locked | Until (t : N) | Forever.
+Record acct := mkAcct { a_exists : bool; a_pass : bytes; a_lock : lock_state }.
+Record ks_state := mkKs { ks_now : N; ks_accts : list acct }.
+
+Inductive ks_op :=
+| OCreate (p : bytes)                            (* NewAccount / ImportECDSA (p): a new, locked account *)
+| OTimedUnlock (i : nat) (p : bytes) (d : N)     (* TimedUnlock(a, p, d); d = 0 is Unlock *)
+| OLock (i : nat)
+| OUpdate (i : nat) (old new : bytes)
+| OExport (i : nat) (p : bytes)
+| ODelete (i : nat) (p : bytes)
+| OSign (i : nat)                                (* SignHash / SignHashAllowed / SignTx *)
+| OSignWithPass (i : nat) (p : bytes)
+| OWait (d : N).
+
+(* getDecryptedKey succeeds: the account is still in the cache / on disk and GetKey accepts p *)
+Definition authenticates (a : acct) (p : bytes) : bool := a_exists a && bytes_eqb p (a_pass a).
+(* ks.unlocked[addr] present: the expire goroutine removes an `Until t` entry at time t *)
+Definition is_unlocked (now : N) (a : acct) : bool :=
+  match a_lock a with Locked => false | Until t => now <? t | Forever => true end.
+
+Fixpoint upd_nth {A} (i : nat) (f : A -> A) (l : list A) : list A :=
+  match l, i with
+  | [], _ => []
+  | x :: t, O => f x :: t
+  | x :: t, S j => x :: upd_nth j f t
+  end.
+
+Definition set_lock (l : lock_state) (a : acct) : acct := mkAcct (a_exists a) (a_pass a) l.
+
+(* one operation: new state and whether it returned nil (true) or an error (false) *)
+Definition ks_step (s : ks_state) (op : ks_op) : ks_state * bool :=
+  let now := ks_now s in
+  let accts := ks_accts s in
+  let with_acct (i : nat) (k : acct -> ks_state * bool) : ks_state * bool :=
+    match nth_error accts i with Some a => k a | None => (s, false) end in
+  match op with
+  | OCreate p => (mkKs now (accts ++ [mkAcct true p Locked]), true)
+  | OTimedUnlock i p d =>
+      with_acct i (fun a =>
+        if authenticates a p then
+          (* already unlocked indefinitely: "the timeout is not altered" *)
+          if (match a_lock a with Forever => true | _ => false end) then (s, true)
+          else (mkKs now (upd_nth i (set_lock (if d =? 0 then Forever else Until (now + d))) accts), true)
+        else (s, false))
+  | OLock i => (mkKs now (upd_nth i (set_lock Locked) accts), true)
+  | OUpdate i old new =>
+      with_acct i (fun a =>
+        if authenticates a old
+        then (mkKs now (upd_nth i (fun a => mkAcct (a_exists a) new (a_lock a)) accts), true)
+        else (s, false))
+  | OExport i p => with_acct i (fun a => (s, authenticates a p))
+  | ODelete i p =>
+      with_acct i (fun a =>
+        if authenticates a p
+        (* the file and the cache entry go; ks.unlocked is not touched *)
+        then (mkKs now (upd_nth i (fun a => mkAcct false (a_pass a) (a_lock a)) accts), true)
+        else (s, false))
+  | OSign i => with_acct i (fun a => (s, is_unlocked now a))
+  | OSignWithPass i p => with_acct i (fun a => (s, authenticates a p))
+  | OWait d => (mkKs (now + d) accts, true)
+  end.
+
+Fixpoint ks_run (s : ks_state) (ops : list ks_op) : ks_state * list bool :=
+  match ops with
+  | [] => (s, [])
+  | op :: t => let '(s1, r) := ks_step s op in let '(s2, rs) := ks_run s1 t in (s2, r :: rs)
+  end.
+
+Definition ks_init : ks_state := mkKs 0 [].
